@@ -35,7 +35,7 @@ def kv(line):
     return dict(x.split("=", 1) for x in line.split()[1:] if "=" in x)
 
 
-def run_cases(chk, exe, cases, rng):
+def run_cases(chk, exe, cases, rng, more=()):
     cmds = []     # (command, checker(outline) -> error text or None, key)
     for d in cases:
         c, x = d["c"], d["x"]
@@ -168,6 +168,7 @@ def run_cases(chk, exe, cases, rng):
                     tag = ((b0 & 0x1f) << 8 | b1) if hdr == 4 else (b0 & 0x1f)
                     return None if (f.get("hdr") == str(hdr) and f.get("tag") == str(tag)) else "two-byte prefix %02x%02x: spec hdr=%d tag=%d, libksi %s" % (b0, b1, hdr, tag, o[:120])
                 cmds.append(("F " + raw.hex(), x_chk, "prefix"))
+    cmds += list(more)
     outs, crashes = vlib.run_lines(exe, [c[0] for c in cmds], timeout=3000)
     import re
     for idx, rc, err in crashes:
@@ -185,6 +186,90 @@ def run_cases(chk, exe, cases, rng):
     return n
 
 
+# ---------------------------------------------------------------------------------------------------------------------------------------
+# the element codec's editing interface as a state machine (spec/TlvEdit.tla): behaviours generated by TLC, replayed through KSI_TlvElement_*
+
+def _fill(tag, n):
+    return bytes(((tag * 7 + i * 13) % 251) for i in range(n))
+
+
+def _hdr(tag, nc, fw, n, form):
+    fl = (0x40 if nc else 0) | (0x20 if fw else 0)
+    return bytes([0x80 | fl | (tag >> 8), tag & 0xff, n >> 8, n & 0xff]) if form == 4 else bytes([fl | tag, n])
+
+
+def layout_bytes(l):
+    """the bytes Tlv.tla's layout stands for: header form and length field as the spec says, own payload or the children in order"""
+    body = _fill(l["tag"], l["len"]) if l["own"] else b"".join(layout_bytes(c) for c in l["sub"])
+    if len(body) != l["len"]:
+        raise vlib.CheckError("TlvEdit.tla layout does not tile: %s" % json.dumps(l)[:200])
+    return _hdr(l["tag"], l["nc"], l["fw"], l["len"], l["hdr"]) + body
+
+
+def edit_behaviours(chk, exe, tier, rng, seed):
+    d = vlib.scratch("c09_edit")
+    out = []
+    def cfg(name, wide, ops):
+        path = os.path.join(d, name)
+        with open(path, "w") as f:
+            f.write("SPECIFICATION Spec\nCONSTANTS\n  Wide = %s\n  Elements <- MCElements\n  RootTags <- MCRootTags\n  MaxDepth = 3\n  MaxOps = %d\n"
+                    "INVARIANTS\n  TypeOK\n  HistoryFree\n  Emit\nCHECK_DEADLOCK FALSE\n" % ("TRUE" if wide else "FALSE", ops))
+        return path
+    # (1) every behaviour of the small alphabet up to 3 edits   (2) random behaviours of the wide alphabet, 5 (thorough: 6) edits deep; in simulation mode
+    #     TLC evaluates the invariants (so Emit) on EVERY successor of the states it walks through: each random walk yields all its last steps
+    r = vlib.run_tlc("MC_TlvEdit.tla", cfg("small.cfg", False, 3), timeout=1500, xmx="16g")
+    if r.violation:
+        raise vlib.CheckError("TlvEdit.tla violates its own invariants:\n" + r.out[-3000:])
+    vlib.tlc_must_pass(r, "MC_TlvEdit"); chk.tlc(r, "tlvedit")
+    beh = [json.loads(json.loads(l)[5:]) for l in r.out.splitlines() if l.startswith('"CASE ')]
+    n_exh = len(beh)
+    ops = 5 if tier == "quick" else 6
+    r2 = vlib.run_tlc("MC_TlvEdit.tla", cfg("wide.cfg", True, ops), timeout=1500, xmx="16g", simulate=(25 if tier == "quick" else 300), depth=ops + 1, seed=seed, workers=8)
+    if r2.violation:
+        raise vlib.CheckError("TlvEdit.tla (simulation) violates its own invariants:\n" + r2.out[-3000:])
+    sim = [json.loads(json.loads(l)[5:]) for l in r2.out.splitlines() if l.startswith('"CASE ')]
+    if len(sim) < 100:
+        raise vlib.CheckError("TLC simulation produced only %d behaviours of TlvEdit.tla:\n%s" % (len(sim), r2.out[-1500:]))
+    beh += sim
+    def enc(e, long_form):
+        return (_hdr(e["tag"], e["nc"], e["fw"], e["len"], 4 if long_form or e["tag"] > 31 or e["len"] > 255 else 2) + _fill(e["tag"], e["len"])).hex()
+    nsteps = 0
+    for b in beh:
+        toks = []
+        for h in b["hist"]:
+            p = ".".join(str(i - 1) for i in h["path"]) or "-"
+            a = h["arg"]
+            if h["op"] == "remove":
+                toks.append("r:%s:%d" % (p, a["tag"]))
+            elif h["op"] == "set" and not a["nc"] and not a["fw"] and rng.random() < 0.4:
+                toks.append("o:%s:%d:%s" % (p, a["tag"], _fill(a["tag"], a["len"]).hex() or "-"))
+            else:
+                toks.append("%s:%s:%s" % ("a" if h["op"] == "append" else "s", p, enc(a, rng.random() < 0.25)))
+        cmd = "X %d %s" % (b["root"]["tag"], " ".join(toks))
+        def chk_fn(o, b=b, toks=toks):
+            got = o.split()[1:]
+            if len(got) != len(b["hist"]):
+                return "driver answered %d steps of %d: %s" % (len(got), len(b["hist"]), o[:200])
+            for k, (g, h) in enumerate(zip(got, b["hist"])):
+                rc, q, ser = g.split(",")
+                want = layout_bytes(h["layout"])
+                what = "after %s (step %d of: %s)" % (toks[k][:40], k + 1, " ".join(t[:24] for t in toks))
+                if (int(rc) == 0) != (h["rc"] == "ok"):
+                    return "edit %s returned %s where TlvEdit.tla says %s" % (toks[k][:40], rc, h["rc"])
+                if h["rc"] != "ok" and int(rc) != 0x10a:
+                    return "refused edit %s returned %s, not the invalid-state error" % (toks[k][:40], rc)
+                qr, ql = q.split(":")
+                if int(qr) != 0 or int(ql) != h["size"] or len(want) != h["size"]:
+                    return "size query %s: libksi says rc=%s len=%s, TlvEdit.tla %d" % (what, qr, ql, h["size"])
+                sr, hx = ser.split(":")
+                if int(sr) != 0 or bytes.fromhex(hx) != want:
+                    return "serialization %s: libksi rc=%s %s..., TlvEdit.tla %s..." % (what, sr, hx[:40], want.hex()[:40])
+            return None
+        out.append((cmd, chk_fn, "edit:%s" % "-".join(h["op"] for h in b["hist"])))
+        nsteps += len(b["hist"])
+    return out, n_exh, len(sim), nsteps
+
+
 def run(chk, tier, seed):
     exe = vlib.build_driver("drv_tlv")
     rng = random.Random(seed)
@@ -196,8 +281,9 @@ def run(chk, tier, seed):
         raise vlib.CheckError("Tlv.tla violates its own theorems:\n" + r.out[-3000:])
     vlib.tlc_must_pass(r, "MC_Tlv"); chk.tlc(r, "tlv")
     cases = [json.loads(json.loads(l)[5:]) for l in r.out.splitlines() if l.startswith('"CASE ')]
-    n = run_cases(chk, exe, cases, rng)
-    kinds = {}
+    ec, n_exh, n_sim, n_steps = edit_behaviours(chk, exe, tier, rng, seed)
+    n = run_cases(chk, exe, cases, rng, more=ec)
+    kinds = {"edit-behaviours (exhaustive, <= 3 edits)": n_exh, "edit-behaviours (TLC simulation)": n_sim}
     for d in cases:
         kinds[d["c"]["t"]] = kinds.get(d["c"]["t"], 0) + 1
     t = [d for d in cases if d["c"]["t"] == "tree" and "sub" in d["c"]["tree"] and d["c"]["tree"]["sub"]]
@@ -206,7 +292,9 @@ def run(chk, tier, seed):
     chk.add(evaluations=n, distinct_nontrivial=len(cases), case_kinds=kinds, exhaustive=True,
             rule="TLC-enumerated trees (tags 1/31/32/8191, both flags, payloads, nesting) with every truncation and +-1 length-byte change, header cases "
                  "(tags x lengths 0..65537), two-child size arithmetic around 65535, all 256 first bytes x sampled second bytes; each replayed through "
-                 "KSI_TLV, KSI_TlvElement, KSI_FTLV mem/file/socket readers and output buffers of needed size -2..+5")
+                 "KSI_TLV, KSI_TlvElement, KSI_FTLV mem/file/socket readers and output buffers of needed size -2..+5; TlvEdit.tla: every behaviour of "
+                 "append / set / remove edits (paths to depth 2, lengths around 0xff/0x100) up to 3 edits and TLC-simulated behaviours of a wider alphabet, "
+                 "the root serialized and compared after every edit", edit_steps=n_steps)
     chk.assumptions += ["all 2^16 two-byte prefixes are classified in the model by their first byte (256 cases x all second bytes in TLC); the replay samples 5 second bytes per first byte"]
 
 
